@@ -40,6 +40,44 @@ fn main() {
     for (name, body) in [("job", &j), ("progress", &p), ("result", &r), ("worker", &w)] {
         m = sub(&m, "mod.rs", &format!("pub mod {name};"), &format!("pub mod {name} {{\n{body}\n}}"));
     }
+    cache_part(&repo);
     let out = PathBuf::from(env::var("OUT_DIR").unwrap()).join("batch_shuttle.rs");
     fs::write(&out, format!("#[allow(dead_code, unused_imports, clippy::all)]\npub mod batch {{\n{m}\n}}\n")).unwrap();
+}
+
+/// C29: memory/cache.rs from the working tree, every `std::sync::` path redirected to `crate::ssync::` (shuttle's
+/// RwLock/Mutex/atomics, std's Arc) and `std::thread` to shuttle's. The substitution is global rather than anchored, so a
+/// change of the locking discipline in the library (Mutex instead of RwLock, an added atomic) still builds and is still
+/// explored. If the file cannot be transformed the generated module only says so and `vp-shuttle-c29` reports ran=false.
+fn cache_part(repo: &str) {
+    let p = PathBuf::from(repo).join("oxidize-pdf-core/src/memory/cache.rs");
+    println!("cargo:rerun-if-changed={}", p.display());
+    let out = PathBuf::from(env::var("OUT_DIR").unwrap()).join("cache_shuttle.rs");
+    let stub = |why: &str| {
+        format!(
+            "pub const CACHE_SRC_OK: bool = false;\npub const CACHE_SRC_WHY: &str = {why:?};\npub mod cache {{\n use super::{{ObjectId, PdfObject}};\n use std::sync::Arc;\n pub struct CacheStats {{ pub size: usize, pub capacity: usize }}\n pub struct ObjectCache;\n impl ObjectCache {{\n  pub fn new(_c: usize) -> Self {{ ObjectCache }}\n  pub fn get(&self, _i: &ObjectId) -> Option<Arc<PdfObject>> {{ None }}\n  pub fn put(&self, _i: ObjectId, _o: Arc<PdfObject>) {{}}\n  pub fn clear(&self) {{}}\n  pub fn stats(&self) -> CacheStats {{ CacheStats {{ size: 0, capacity: 0 }} }}\n }}\n}}\n"
+        )
+    };
+    let src = match fs::read_to_string(&p) {
+        Ok(s) => s,
+        Err(e) => {
+            fs::write(&out, stub(&format!("cannot read {}: {e}", p.display()))).unwrap();
+            return;
+        }
+    };
+    let mut m = strip(&src);
+    let uses = ["use crate::objects::ObjectId;", "use crate::parser::PdfObject;"];
+    for u in uses {
+        if m.matches(u).count() != 1 {
+            fs::write(&out, stub(&format!("anchor not found exactly once in memory/cache.rs: {u}"))).unwrap();
+            return;
+        }
+    }
+    m = m.replacen(uses[0], "use super::ObjectId;", 1).replacen(uses[1], "use super::PdfObject;", 1);
+    if m.contains("crate::") {
+        fs::write(&out, stub("memory/cache.rs refers to further crate-internal items")).unwrap();
+        return;
+    }
+    m = m.replace("std::sync::", "crate::ssync::").replace("std::thread", "shuttle::thread");
+    fs::write(&out, format!("pub const CACHE_SRC_OK: bool = true;\npub const CACHE_SRC_WHY: &str = \"\";\n#[allow(dead_code, unused_imports, clippy::all)]\npub mod cache {{\n{m}\n}}\n")).unwrap();
 }
